@@ -607,3 +607,9 @@ package bbolt
 //@   trusted
 //@   modifies nothing
 
+
+//@ F [mmap.prot] props C17 : constarg bbolt.mmap calls golang.org/x/sys/unix.Mmap arg 3 == 1
+//@ F [truncate.callers] props C17 C18 : callers os.(*File).Truncate subset bbolt.(*DB).grow
+//@ F [writeat.callers] props C17 C06 C01 : callers struct_writeAt.writeAt subset bbolt.(*Tx).write, bbolt.(*Tx).writeMeta, bbolt.(*DB).init
+//@ F [flock.callers] props C17 : callers bbolt.flock subset bbolt.Open
+//@ F [funlock.callers] props C17 : callers bbolt.funlock subset bbolt.(*DB).close
